@@ -834,6 +834,25 @@ class Exec:
         args = [b]
         if b.ty in ('tuple', 'seq'):
             args = None
+        # formats made of literal text and %s only, applied to strings: plain concatenation
+        fmt = z3.simplify(sv(a.t))
+        elems = b.elems if b.ty in ('tuple', 'seq') else [b]
+        if z3.is_string_value(fmt) and elems is not None:
+            text = fmt.as_string()
+            pieces = _re.split(r'(%s|%%)', text)
+            n_s = sum(1 for p_ in pieces if p_ == '%s')
+            if '%' not in ''.join(p_ for p_ in pieces if p_ not in ('%s', '%%')) and n_s == len(elems) and all(x.ty in ('str', 'char', None) for x in elems):
+                out, k = [], 0
+                pystr = z3.Function('py_str', V, z3.StringSort())
+                for p_ in pieces:
+                    if p_ == '%s':
+                        x = elems[k]
+                        out.append(sv(x.t) if x.ty in ('str', 'char') else z3.If(is_s(x.t), sv(x.t), pystr(x.t))); k += 1
+                    elif p_ == '%%':
+                        out.append(z3.StringVal('%'))
+                    elif p_:
+                        out.append(z3.StringVal(p_))
+                return Val(mk_s(out[0] if len(out) == 1 else z3.Concat(*out)) if out else mk_s(''), 'str')
         f = z3.Function('str_format', z3.StringSort(), V, z3.StringSort())
         if args is None:
             # tuple argument: hash its contents by position through the sequence
